@@ -14,6 +14,7 @@ CANARIES = [
     {'name': 'add-appends-ignoring-index', 'file': 'clastic/application.py',
      'old': "            self.routes.insert(index, br)\n", 'new': "            self.routes.append(br)\n"},
 ]
+OWN = [r'Application\.add', r'BoundRoute\.__init__.*/ensures\[(5|6)\]', r'SubApplication\.bind_all', r'^C11\.', r'/frame$']
 QUICK_CANARIES = 2
 
 
@@ -66,3 +67,12 @@ def concretise(pc, it):
     if n_old is None or n_new is None:
         return None
     return {'script': 'c11_add.py', 'case': {'n_old': min(n_old, 6), 'n_new': max(min(n_new, 4), 2), 'index': None if isnone else idx}}
+
+
+def fallback(pc):
+    cases = [{'script': 'c11_add.py', 'case': {'scenario': 'rebind_isolation'}}]
+    for idx in (None, 0, 1, -1, -2, 5):
+        cases.append({'script': 'c11_add.py', 'case': {'n_old': 3, 'n_new': 2, 'index': idx}})
+    cases.append({'script': 'c11_add.py', 'case': {'n_old': 3, 'n_new': 2, 'index': 1, 'failing': True}})
+    cases.append({'script': 'subapp_case.py', 'case': {'seed': 1, 'trees': 60}})
+    return cases
